@@ -491,7 +491,12 @@ def do_zone(env, ctx, op):
         if word in names_local:
             return False
         text = "%s %s%+d" % (base, word, h)
-        expect = ("offset", -h * 3600, None) if h else ("utc",)
+        if h:
+            expect = ("offset", -h * 3600, None)
+        else:
+            # (only reachable through shrinking) a zero offset is UTC, or the
+            # local zone when "UTC" is itself a local abbreviation
+            expect = ("local_or_utc",) if "UTC" in names_local else ("utc",)
         tag = "tz.gmt_plus"
     elif kind == "unknown":
         name = op[4]
